@@ -704,6 +704,17 @@ int dhcp_fastpath_prog(struct xdp_md *ctx) {
 		return XDP_PASS;
 	}
 
+	/* A REQUEST is acknowledged from the cache only when it renews exactly the
+	 * cached address (ciaddr == allocated_ip; the map holds the address as a
+	 * host-order integer).  Every other REQUEST (SELECTING / INIT-REBOOT carry
+	 * the address in option 50, which is not at a fixed offset; wrong or missing
+	 * address) is decided by the slow path, which may have to NAK it. */
+	if (msg_type == DHCP_REQUEST &&
+	    pkt.dhcp->ciaddr != bpf_htonl(assignment->allocated_ip)) {
+		update_stat(STAT_FASTPATH_MISS);
+		return XDP_PASS;
+	}
+
 	/* Look up pool metadata */
 	struct ip_pool *pool = bpf_map_lookup_elem(&ip_pools, &assignment->pool_id);
 	if (!pool) {
